@@ -28,10 +28,18 @@ package gen
 //@   free-requires fieldInv(self)
 //@   modifies allexcept("parquet.Metadata", "[]parquet.RowGroup", "GEN.ParquetWriter")
 
+// ... and for a required string column: every value is a 4-byte length followed by its bytes
+//@ recfn strBytes(A array<str>, off int, n int) int := ite(n <= 0, 0, strBytes(A, off, n - 1) + 4 + #A[off + n - 1])
+//@ func (*StringField).Write
+//@   verify[C02]
+//@   requires f != nil && metaOK(meta) && external(w)
+//@   modifies f, meta, HA(meta.rowGroups), heap("sch.ColumnMetaData"), heap("map[string]sch.ColumnChunk"), wfault, snk, ser, relArr
+//@   ensures[C02] err == nil && i32(strBytes(HA(f.vals), off(f.vals), #f.vals)) && i32(#f.vals) && i32(snkPos - old(snkPos) - hdrLen) ==> hdrNV == #f.vals && hdrUncomp == strBytes(HA(f.vals), off(f.vals), #f.vals) && hdrComp == snkPos - old(snkPos) - hdrLen
 //@ template T in String
 //@ loop (*{T}Field).Write#1
 //@   modifies buf, HA(buf.B), HA(bs)
 //@   invariant buf != nil && freshsince(buf) && freshOrNil(buf.B) && freshsince(bs)
+//@   invariant[C02] 0 <= rangeindex + 1 && rangeindex + 1 <= #f.vals && #buf.B == strBytes(HA(f.vals), off(f.vals), rangeindex + 1)
 //@ loop (*{T}OptionalField).Write#1
 //@   modifies buf, HA(buf.B), HA(bs)
 //@   invariant buf != nil && freshsince(buf) && freshOrNil(buf.B) && freshsince(bs)
@@ -65,6 +73,12 @@ package gen
 //@   ensures[C02] err == nil && i32({T1} * #f.vals) && i32(snkPos - old(snkPos) - hdrLen) ==> hdrNV == #f.vals && hdrUncomp == {T1} * #f.vals && hdrComp == snkPos - old(snkPos) - hdrLen
 //@ end template
 
+// ... and for a required bool column: one bit per value, whole bytes
+//@ func (*BoolField).Write
+//@   verify[C02]
+//@   requires f != nil && metaOK(meta) && external(w)
+//@   modifies f, meta, HA(meta.rowGroups), heap("sch.ColumnMetaData"), heap("map[string]sch.ColumnChunk"), wfault, snk, ser, relArr
+//@   ensures[C02] err == nil && i32(#f.vals) && i32(snkPos - old(snkPos) - hdrLen) ==> hdrNV == #f.vals && hdrUncomp == (#f.vals + 7) / 8 && hdrComp == snkPos - old(snkPos) - hdrLen
 //@ loop (*BoolField).Write#1
 //@   modifies HA(rawBuf)
 //@   invariant freshsince(rawBuf)
